@@ -309,32 +309,29 @@ theorem handlePacket_hist {s s' : RState} {id : Nat} {cid : String} {pkt : Packe
             (by simp [RState.g, setConn]) ?_
           intro e he; simp at he; rcases he with rfl | rfl <;> rfl
   | pubrel pkid hpr =>
-    cases hpr with
-    | true => simp only [handlePacket, Except.ok.injEq, Prod.mk.injEq] at h; obtain ⟨rfl, _⟩ := h; exact Hist.refl _
-    | false =>
-      simp only [handlePacket] at h
+    simp only [handlePacket] at h
+    split at h
+    · simp at h
+    · rename_i c hc
       split at h
-      · simp at h
-      · rename_i c hc
+      · simp only [Except.ok.injEq, Prod.mk.injEq] at h; obtain ⟨rfl, _⟩ := h
+        exact Hist.of_boring (Boring.of_evs [.committed id (.pubcomp pkid)] rfl rfl rfl (Quiet.single rfl))
+      · rename_i p rest hrec
+        have b0 : Boring s ((setConn s id { c with acks := { committed := c.acks.committed ++ [Ack.pubcomp pkid], recorded := rest } }).g
+            (.committed id (.pubcomp pkid))) :=
+          Boring.of_evs [.committed id (.pubcomp pkid)] rfl rfl rfl (Quiet.single rfl)
         split at h
-        · simp only [Except.ok.injEq, Prod.mk.injEq] at h; obtain ⟨rfl, _⟩ := h
-          exact Hist.of_boring (Boring.of_evs [.committed id (.pubcomp pkid)] rfl rfl rfl (Quiet.single rfl))
-        · rename_i p rest hrec
-          have b0 : Boring s ((setConn s id { c with acks := { committed := c.acks.committed ++ [Ack.pubcomp pkid], recorded := rest } }).g
-              (.committed id (.pubcomp pkid))) :=
-            Boring.of_evs [.committed id (.pubcomp pkid)] rfl rfl rfl (Quiet.single rfl)
+        · simp at h
+        · rename_i s2 e hap
+          simp only [Except.ok.injEq, Prod.mk.injEq] at h; obtain ⟨rfl, _⟩ := h
+          exact (Hist.of_boring b0).trans (appendToCommitlog_hist hap)
+        · rename_i s2 hap
           split at h
           · simp at h
-          · rename_i s2 e hap
+          · rename_i s3 h3
             simp only [Except.ok.injEq, Prod.mk.injEq] at h; obtain ⟨rfl, _⟩ := h
-            exact (Hist.of_boring b0).trans (appendToCommitlog_hist hap)
-          · rename_i s2 hap
-            split at h
-            · simp at h
-            · rename_i s3 h3
-              simp only [Except.ok.injEq, Prod.mk.injEq] at h; obtain ⟨rfl, _⟩ := h
-              exact ((Hist.of_boring b0).trans (appendToCommitlog_hist hap)).trans
-                (Hist.of_boring (reschedule_boring h3))
+            exact ((Hist.of_boring b0).trans (appendToCommitlog_hist hap)).trans
+              (Hist.of_boring (reschedule_boring h3))
   | pubcomp pkid =>
     simp only [handlePacket] at h
     split at h
@@ -390,11 +387,14 @@ theorem handleDevicePayload_hist {s s' : RState} {id : Nat} (h : handleDevicePay
             split at h3
             · exact Boring.precomp (drainNotifications_boring h3) rfl rfl rfl
             · simp only [Except.ok.injEq] at h3; subst h3; exact Boring.refl _
-          have a4 : Boring s3 s' := by
+          split at h
+          · simp at h
+          rename_i s4 h4
+          have a4 : Boring s4 s' := by
             split at h
             · exact handleDisconnection_boring h
             · simp only [Except.ok.injEq] at h; subst h; exact Boring.refl _
-          exact a1.trans (Hist.of_boring ((a2.trans a3).trans a4))
+          exact a1.trans (Hist.of_boring (((a2.trans a3).trans (wakeTurnMoved_boring h4)).trans a4))
 
 /-! ### wills -/
 
